@@ -14,6 +14,7 @@ import (
 	beacon "github.com/oasisprotocol/oasis-core/go/beacon/api"
 	"github.com/oasisprotocol/oasis-core/go/common/crypto/signature"
 	"github.com/oasisprotocol/oasis-core/go/common/quantity"
+	"github.com/oasisprotocol/oasis-core/go/consensus/api/events"
 	abciAPI "github.com/oasisprotocol/oasis-core/go/consensus/cometbft/api"
 	governanceState "github.com/oasisprotocol/oasis-core/go/consensus/cometbft/apps/governance/state"
 	registryState "github.com/oasisprotocol/oasis-core/go/consensus/cometbft/apps/registry/state"
@@ -247,7 +248,7 @@ func newWorld(d histDesc, run *runner) (*world, error) {
 	}
 	if d.Stream == "roothash" {
 		rtKnobs(w.k)
-		w.k.EpochInterval = int64(3 + rng.Intn(2))
+		w.k.EpochInterval = int64(3 + rng.Intn(3))
 		w.k.Commission[0] = []uint64{5000, 20_000, 99_999, 100_000}[rng.Intn(4)]
 		if d.Script == scriptRtSlashReward {
 			w.k.Commission[0], w.k.EpochInterval = 100_000, 3
@@ -340,6 +341,7 @@ type snap struct {
 	props    []*governance.Proposal
 	votes    map[uint64][]*governance.VoteEntry
 	govThr   uint8
+	signing  *stakingState.EpochSigning
 }
 
 func (w *world) snapshot(r *muxdrv.Replica) (s *snap, err error) {
@@ -369,6 +371,9 @@ func (w *world) snapshot(r *muxdrv.Replica) (s *snap, err error) {
 		return nil, err
 	}
 	s.lastFees = lf.ToBigInt()
+	if s.signing, err = ss.EpochSigning(ctx); err != nil {
+		return nil, err
+	}
 	addrs, err := ss.Addresses(ctx)
 	if err != nil {
 		return nil, err
@@ -443,6 +448,7 @@ func (w *world) genesisSnap() *snap {
 		s.curVals = append(s.curVals, e)
 	}
 	s.govThr = w.g.Doc.Governance.Parameters.StakeThreshold
+	s.signing = &stakingState.EpochSigning{ByEntity: map[signature.PublicKey]uint64{}}
 	return s
 }
 
@@ -505,6 +511,15 @@ func (w *world) fail(h int64, what string, err error) {
 	}
 	if len(detail) > 2500 {
 		detail = detail[:2500]
+	}
+	if strings.Contains(detail, "999_supplementarysanity") && strings.Contains(detail, "allowance is greater than total supply") {
+		// The debug-only sanity app checks "allowance <= total supply" (SanityCheckAccount, the same
+		// check a genesis document must pass); staking.Allow only rejects an allowance above the
+		// supply of THAT moment (transactions.go:664-671) and a later Burn lowers the supply below
+		// it. No production app fails during block execution: an observation, not a halt.
+		w.res.outcome = "sanity app (debug): allowance above total supply after a burn"
+		w.count("observation/supplementarysanity: allowance above total supply after a burn")
+		return
 	}
 	if w.d.Stream == "precond" && strings.Contains(detail, errElection) {
 		w.res.outcome = "documented-election-failure"
@@ -638,6 +653,39 @@ func (w *world) step(bp *blockPlan) bool {
 		}
 	}
 
+	if w.d.Stream == "roothash" {
+		cnt := func(where string, evs []muxdrv.Event) {
+			for _, e := range evs {
+				for _, a := range e.Attrs {
+					switch {
+					case e.Type == "oasis_event_999_roothash" && a[0] != "runtime-id":
+						w.count("rt-events/" + where + " roothash " + a[0])
+					case e.Type == stakingEventType && a[0] == "take_escrow":
+						w.count("rt-events/" + where + " staking take_escrow (slash)")
+						if where == "BeginBlock" && len(bp.mis) == 0 {
+							w.count("rt-events/BeginBlock take_escrow without consensus evidence (runtime liveness slash)")
+						}
+					case e.Type == stakingEventType && where == "EndBlock" && (a[0] == "transfer" || a[0] == "add_escrow" || a[0] == "debonding_start"):
+						// effects of runtime messages: staking operations by the runtime's own account
+						var t staking.TransferEvent
+						var ae staking.AddEscrowEvent
+						ra := staking.NewRuntimeAddress(w.rt.id)
+						if a[0] == "transfer" && events.DecodeValue(a[1], &t) == nil && t.From == ra {
+							w.count("rt-events/EndBlock runtime message: transfer executed")
+						}
+						if a[0] == "add_escrow" && events.DecodeValue(a[1], &ae) == nil && ae.Owner == ra {
+							w.count("rt-events/EndBlock runtime message: add_escrow executed")
+						}
+					}
+				}
+			}
+		}
+		cnt("BeginBlock", res.BeginEvents)
+		cnt("EndBlock", res.EndEvents)
+		for _, tr := range res.TxResults {
+			cnt("tx", tr.Events)
+		}
+	}
 	c.Applied(res)
 	w.res.blocksRun++
 	cur, err := w.snapshot(prop)
